@@ -93,6 +93,7 @@ def _mk(urwid):
             self.last_pack = None
 
         def pack(self, size=(), focus=False):
+            self.last_offer = size[0] if size else -1
             self.last_pack = (self.ncols if not size else min(self.ncols, size[0]), self.nrows)
             return self.last_pack
 
@@ -104,7 +105,28 @@ def _mk(urwid):
             self.log.append((self.idx, tuple(size), (cols, self.nrows)))
             return urwid.SolidCanvas(self.ch, max(cols, 0), self.nrows)
 
+    class RecText(urwid.Text):
+        """a REAL text of one unbreakable word (natural width = its length, narrower when less is offered) that records what it is
+        asked: the packed child of the Padding docs."""
+
+        def __init__(self, log, idx, ncols):
+            super().__init__("w" * ncols)
+            self.log, self.idx, self.ncols = log, idx, ncols
+            self.last_pack = None
+            self.last_offer = -1
+
+        def pack(self, size=(), focus=False):
+            self.last_offer = size[0] if size else -1
+            self.last_pack = super().pack(size, focus)
+            return self.last_pack
+
+        def render(self, size, focus=False):
+            canv = super().render(size, focus)
+            self.log.append((self.idx, tuple(size), (canv.cols(), canv.rows())))
+            return canv
+
     _PROBES["cls"] = (Box, Fixed, FixedFlow)
+    _PROBES["text"] = RecText
     return _PROBES["cls"]
 
 
@@ -286,9 +308,11 @@ def _align_pct(a):
     return ALIGN_PCT[a] if isinstance(a, str) else a
 
 
-def _axis(avail, align, kind, amt, own, mn, L, R, clip, l, r, child):
-    return {"c": {"avail": avail, "align": _align_pct(align), "kind": kind, "amt": amt, "own": own, "min": -1 if mn is None else mn,
-                  "L": L, "R": R, "clip": bool(clip)}, "l": l, "r": r, "child": child}
+def _axis(avail, align, kind, amt, own, mn, L, R, clip, l, r, child, nat=None, flex=False):
+    """nat: the natural extent of a packed / fixed child (taken from the probe's configuration, NOT from what it answered when the
+    decoration asked it with a size of the decoration's choosing); flex: a packed child that shrinks to what it is offered."""
+    return {"c": {"avail": avail, "align": _align_pct(align), "kind": kind, "amt": amt, "own": own, "nat": own if nat is None else nat,
+                  "flex": bool(flex), "min": -1 if mn is None else mn, "L": L, "R": R, "clip": bool(clip)}, "l": l, "r": r, "child": child}
 
 
 def pad_event(p):
@@ -303,24 +327,34 @@ def pad_event(p):
     elif kind == "relative":
         child, width = Box(log, 0), ("relative", amt)
     elif kind == "pack":
-        child, width = FixedFlow(log, 0, amt), "pack"
+        child, width = (_PROBES["text"] if p.get("child") == "text" else FixedFlow)(log, 0, amt), "pack"
     else:
         child, width = Fixed(log, 0, amt), "clip"
-    e = {"t": "pad", "widget": "padding", "exc": "", "rexc": "", "sizes": []}
+    e = {"t": "pad", "widget": "padding", "exc": "", "rexc": "", "sizes": [], "offer": -1, "fixed": 0,
+         "text_child": int(kind == "pack" and p.get("child") == "text")}
     size = (p["avail"], 2) if p.get("box") and kind in ("given", "relative") else (p["avail"],)
     l = r = 0
     own = amt
+    avail = p["avail"]
     try:
         w = urwid.Padding(child, _align_arg(p["align"]), width, p["min"], p["L"], p["R"])
+        if p.get("fixed") and kind in ("given", "pack"):
+            size = ()
+            avail = w.pack(size, True)[0]      # the columns a fixed Padding claims for itself
+            (avail,), bad = _ints([avail])
+            if bad:
+                e["exc"] = bad
+            e["fixed"] = 1
         l, r = w.padding_values(size, True)
         (l, r), bad = _ints([l, r])
         if bad:
             e["exc"] = bad
         if kind in ("pack", "clip") and child.last_pack:
             own = child.last_pack[0]
+            e["offer"] = getattr(child, "last_offer", -1)
     except Exception as ex:  # noqa: BLE001
         e["exc"] = type(ex).__name__
-    got = p["avail"] - l - r if kind != "clip" else own
+    got = avail - l - r if kind != "clip" else own
     if not e["exc"]:
         try:
             w.render(size, True)
@@ -329,7 +363,8 @@ def pad_event(p):
         for _idx, sz, (cols, _rows) in log:
             e["sizes"].append(list(sz))
             got = cols
-    e.update(_axis(p["avail"], p["align"], kind, amt, own, p["min"], p["L"], p["R"], kind == "clip", l, r, got))
+    # the requested size of a packed / clipped child is its natural width `amt`; `own` is only what it answered to the Padding
+    e.update(_axis(avail, p["align"], kind, amt, own, p["min"], p["L"], p["R"], kind == "clip", l, r, got, nat=amt, flex=kind == "pack"))
     return e
 
 
@@ -573,7 +608,7 @@ def build_traces(chk):
     # ---- Padding / Filler: exhaustive small ranges ---------------------------------------------------------------
     pavs = range(0, 10) if quick else range(0, 13)
     margins = [(0, 0), (1, 0), (0, 2), (1, 1), (2, 2)] if quick else [(a, b) for a in range(3) for b in range(3)]
-    kinds_amts = ([("given", a) for a in (0, 1, 3, 5)] + [("pack", a) for a in (1, 2, 4)] + [("clip", a) for a in (1, 3, 6)]
+    kinds_amts = ([("given", a) for a in (0, 1, 3, 5)] + [("pack", a) for a in (1, 2, 4, 7)] + [("clip", a) for a in (1, 3, 6)]
                   + [("relative", a) for a in (0, 25, 50, 75, 100)])
     if not quick:
         kinds_amts = ([("given", a) for a in range(0, 8)] + [("pack", a) for a in range(1, 8)] + [("clip", a) for a in range(1, 8)]
@@ -587,6 +622,14 @@ def build_traces(chk):
                 aligns = [ALIGNS_H[(j + k) % len(ALIGNS_H)] for k in ((0, 4, 7) if quick else (0, 1, 2, 4, 5, 7))]
                 yield (single_trace("padding", [dict(kind=kind, amt=amt, min=mn, L=L, R=R, align=al, avail=av, box=(j + av) % 4 == 0)
                                              for al in aligns for av in pavs]))
+                if kind == "pack":       # the packed child is a real Text (one word): packed against the room beside the fixed margins
+                    yield (single_trace("padding", [dict(kind=kind, amt=amt, min=mn, L=L, R=R, align=al, avail=av, child="text")
+                                                 for al in aligns[:2] for av in pavs]))
+                # the Padding as a fixed widget (size ()): the space is what it claims for itself.  Only without min_width: with one
+                # render(()) puts the extra columns to the right of the child itself, padding_values(()) does not show them
+                if kind in ("given", "pack") and mn is None:
+                    yield (single_trace("padding", [dict(kind=kind, amt=amt, min=mn, L=L, R=R, align=al, avail=0, fixed=True,
+                                                         child="text" if j % 2 else None) for al in aligns]))
                 if kind != "clip":
                     valigns = [ALIGNS_V[(j + k) % len(ALIGNS_V)] for k in ((1, 5, 8) if quick else (0, 1, 3, 5, 6, 8))]
                     yield (single_trace("filler", [dict(kind=kind, amt=amt, min=mn, L=L, R=R, align=al, avail=av, flow=(j + av) % 7 == 0)
@@ -599,7 +642,15 @@ def build_traces(chk):
             amt = rng.randint(0, 120) if kind == "relative" else rng.randint(0 if kind == "given" else 1, 40)
             base = dict(kind=kind, amt=amt, min=rng.choice([None, None, rng.randint(1, 12)]), L=rng.randint(0, 6), R=rng.randint(0, 6),
                         align=rng.choice(["left", "center", "right", rng.randint(0, 100)]), avail=rng.randint(0, 60))
-            ps.append(dict(base, box=rng.random() < 0.3))
+            if kind in ("pack", "clip") and rng.random() < 0.5:
+                # a packed / clipped child that fits into the line but not beside the (non-zero) fixed margins
+                L, R = rng.choice([(rng.randint(1, 6), 0), (0, rng.randint(1, 6)), (rng.randint(1, 6), rng.randint(1, 6))])
+                room = rng.randint(0, 30)
+                avail = room + L + R
+                base.update(L=L, R=R, avail=avail, amt=rng.randint(room + 1, avail + (2 if rng.random() < 0.2 else 0)),
+                            min=rng.choice([None, None, None, rng.randint(1, avail + 1)]))
+            ps.append(dict(base, box=rng.random() < 0.3, child="text" if kind == "pack" and rng.random() < 0.4 else None,
+                           fixed=kind in ("given", "pack") and base["min"] is None and rng.random() < 0.08))
             if kind != "clip":
                 al = base["align"]
                 fs.append(dict(base, align={"left": "top", "center": "middle", "right": "bottom"}.get(al, al), flow=rng.random() < 0.1))
@@ -725,7 +776,19 @@ CHECK_DEADLOCK FALSE
 NEEDED = ("columns.trailing_columns_dropped", "columns.left_columns_dropped", "columns.proportional_judged", "columns.min_width_intervenes",
           "columns.dividers_between_visible", "columns.rendered", "columns.cached_answer", "pile.rendered", "pile.fixed_rows_overflow",
           "padding.given.does_not_fit", "padding.relative.fits", "padding.clip.does_not_fit", "padding.align_split_nontrivial",
-          "filler.align_split_nontrivial", "filler.pack.does_not_fit", "overlay.flow_rows_depend_on_width", "overlay.clipxclip", "grid.multi_row")
+          "filler.align_split_nontrivial", "filler.pack.does_not_fit", "overlay.flow_rows_depend_on_width", "overlay.clipxclip", "grid.multi_row",
+          "padding.pack.natural_exceeds_room_beside_margins", "padding.pack.natural_exceeds_room_min_size_intervenes",
+          "padding.clip.natural_exceeds_room_beside_margins", "filler.pack.natural_exceeds_room_beside_margins",
+          "overlay.clip.natural_exceeds_room_beside_margins", "overlay.pack.natural_exceeds_room_beside_margins",
+          "padding.pack.text_child", "padding.fixed_sizing")
+
+
+def _beside_margins(c, widget, cc):
+    """a packed / clipped child whose natural extent fits into the space but not beside the non-zero fixed margins"""
+    if cc["kind"] in ("pack", "clip") and cc["L"] + cc["R"] > 0 and cc["avail"] - cc["L"] - cc["R"] < cc["nat"] <= cc["avail"]:
+        c(f"{widget}.{cc['kind']}.natural_exceeds_room_beside_margins")
+        if cc["flex"] and cc["min"] > max(0, cc["avail"] - cc["L"] - cc["R"]):
+            c(f"{widget}.{cc['kind']}.natural_exceeds_room_min_size_intervenes")
 
 
 def _coverage(counts, nontriv, traces):
@@ -778,8 +841,15 @@ def _coverage(counts, nontriv, traces):
                 if fits and cc["avail"] - cc["L"] - cc["R"] - e["child"] > 0 and 0 < cc["align"] < 100:
                     c(f"{e['widget']}.align_split_nontrivial")
                     nontriv.add(hash((e["widget"], json.dumps(cc))))
+                _beside_margins(c, e["widget"], cc)
+                if e["widget"] == "padding" and e.get("fixed"):
+                    c("padding.fixed_sizing")
+                if e["widget"] == "padding" and e.get("text_child"):
+                    c("padding.pack.text_child")
             elif t == "overlay":
                 c(f"overlay.{e['h']['c']['kind']}x{e['v']['c']['kind']}")
+                _beside_margins(c, "overlay", e["h"]["c"])
+                _beside_margins(c, "overlay", e["v"]["c"])
                 if e["rows_dep"]:
                     c("overlay.flow_rows_depend_on_width")
                 nontriv.add(hash(("o", json.dumps(e["h"]["c"]), json.dumps(e["v"]["c"]))))
@@ -880,6 +950,11 @@ def run(chk):
         "a packed column's 'own size' is what the probe child itself returned from pack()",
         "'the remaining space otherwise' is judged in the weak reading (at least what the margins leave, at most min(requested, available)); "
         "the literal reading (exactly what the margins leave) is evaluated by TLC as DIVERGENCE: urwid gives up the fixed margins first",
+        "a packed child's requested size is its natural extent (what the probe is configured with / a one-word Text is long), not what it "
+        "answered when the decoration packed it against a width of the decoration's choosing; for a packed child that shrinks to what it is "
+        "offered (Padding width='pack') 'the remaining space' is read literally - what the fixed margins leave, lifted to min_width when one "
+        "is set - because nothing forces the decoration to give up its margins there; a fixed-size Padding (size ()) is judged without "
+        "min_width only (render(()) puts the extra columns to the right of the child, padding_values(()) does not show them)",
         "'unless the minimum width intervenes' = some shown weighted column sits at min_width; the reading 'only when an exact share is below "
         "min_width' is evaluated as DIVERGENCE",
         "zero given sizes, zero packed sizes and zero weights are outside the statement's 'given (>= 1) ... positively weighted': only the "
